@@ -97,5 +97,16 @@ func c02Invalidate(r *Rng, q *Req) {
 	case k < 9:
 		bl, _ := q.Body["biases"].([]interface{})
 		q.Body["biases"] = append(bl, J{"name": "fatigue", "props": J{"function": "noSuchFunction", "params": J{}}})
+	case k < 11:
+		if q.Method == "majorityHeuristic" {
+			q.Body["methodParameters"].(J)["drawResolution"] = "coinFlip"
+		}
+	case k < 13:
+		bl, _ := q.Body["biases"].([]interface{})
+		q.Body["biases"] = append(bl, J{"name": "anchoring", "props": J{
+			"anchoringAlternatives": []interface{}{J{"alternative": q.Problem.Known[0].Id, "coefficient": 1}},
+			"loss":                  J{"function": "linear", "params": J{"a": 1, "b": 0}}, "gain": J{"function": "linear", "params": J{"a": 1, "b": 0}},
+			"referencePoints": J{"function": []string{"ideal", "centroid"}[r.Intn(2)]},
+			"applier":         J{"function": []string{"inlined", "inline"}[r.Intn(2)], "params": J{}}}})
 	}
 }
